@@ -1,6 +1,6 @@
 (* C08 - Position independence under module relocation (theorem) and stack relocation (theorem for
    every cached rule of both architectures and for walks over rules; oracle for the rest). *)
-From FH Require Import Consts Word X86 A64 Unwinder X86Unw A64Unw ModFacts RelocFacts ShiftFacts ShiftFrame DwarfRow Cfi X86Dwarf DwarfCb Macho MachoCb.
+From FH Require Import Consts Word X86 A64 Unwinder X86Unw A64Unw ModFacts RelocFacts ShiftFacts ShiftFrame ShiftWalk MachoWf DwarfRow Cfi X86Dwarf DwarfCb Macho MachoCb.
 Open Scope N_scope.
 
 (* [moved d md]: the same module mapped d bytes higher - range and base address moved together,
@@ -119,14 +119,62 @@ Print Assumptions C08_stack_relocated_a64_frame.
 (* the callback condition holds for modules without data, for every Mach-O entry that does not defer to DWARF,
    and a DWARF row that compresses gives the same well-formed rule for both states *)
 Check cb_rel_none.
-Check cb_rel_macho.
 Check cb_rel_dwarf.      (* DWARF modules all of whose rows compress, in every presentation *)
+Check cb_rel_a_none.
+
+(* Mach-O, both architectures: every address whose entry does not defer to DWARF - opcode translation, prologue and
+   epilogue analysis, stubs, stub helpers, function starts.  That the rule produced is well-formed (fits the
+   compressed fields) is proved, not assumed: MachoWf.v *)
+Theorem C08_callback_macho_x86 : forall lo hi s (md : xmodule) d first rel rg rg' m,
+  mdat md = MMacho d -> rrel lo hi s rg rg' -> vok lo hi s rg -> spok lo hi rg ->
+  (forall off, macho_cui rule x86_macho_unwind JustReturn JustReturn x86_stub_helper_rule d rel first <> CuiNeedDwarf off) ->
+  cb_rel lo hi s (cb_x86 md first rel rg m) (cb_x86 md first rel rg' (shm lo hi s m)).
+Proof. exact cb_rel_macho. Qed.
+Print Assumptions C08_callback_macho_x86.
+
+Theorem C08_callback_macho_a64 : forall lo hi s k (md : amodule) d first rel rg rg' m,
+  mdat md = AMMacho d -> arel lo hi s k rg rg' -> avok lo hi s k rg -> aspok lo s rg ->
+  (forall off, macho_cui arule a64_macho_unwind ANoOp ANoOp a64_stub_helper_rule d rel first <> CuiNeedDwarf off) ->
+  cb_rel_a lo hi s k (cb_a64 md first rel rg m) (cb_a64 md first rel rg' (shm lo hi s m)).
+Proof. exact cb_rel_a_macho. Qed.
+Print Assumptions C08_callback_macho_a64.
+
+Theorem C08_callback_dwarf_a64 : forall lo hi s k (md : amodule) p sec first rel rg rg' m,
+  mdat md = AMDwarf p sec -> rows_compress_a sec -> arel lo hi s k rg rg' -> avok lo hi s k rg -> aspok lo s rg ->
+  cb_rel_a lo hi s k (cb_a64 md first rel rg m) (cb_a64 md first rel rg' (shm lo hi s m)).
+Proof. exact cb_rel_a_dwarf. Qed.
+Print Assumptions C08_callback_dwarf_a64.
+
+Theorem C08_macho_rules_fit_x86 : forall d rel first r,
+  macho_cui rule x86_macho_unwind JustReturn JustReturn x86_stub_helper_rule d rel first = CuiRule r -> rule_wf r = true.
+Proof. exact x86_macho_rules_wf. Qed.
+Theorem C08_macho_rules_fit_a64 : forall d rel first r,
+  macho_cui arule a64_macho_unwind ANoOp ANoOp a64_stub_helper_rule d rel first = CuiRule r -> arule_wf r = true.
+Proof. exact a64_macho_rules_wf. Qed.
+Print Assumptions C08_macho_rules_fit_x86.
+Print Assumptions C08_macho_rules_fit_a64.
 Theorem C08_compressible_row_ignores_the_stack : forall f svma first rg rg' m m',
   (forall rw, row_for_address f svma = Some rw -> translate_x86 rw <> None) ->
   exists r, with_fde rule regs row_step_x86 uncovered_rule_x86 f svma first rg m = CbRule r /\
             with_fde rule regs row_step_x86 uncovered_rule_x86 f svma first rg' m' = CbRule r /\ rule_wf r = true.
 Proof. exact with_fde_rel. Qed.
 Print Assumptions C08_compressible_row_ignores_the_stack.
+
+(* a whole walk through the iterator WITH its cache (x86_64): an unwinder all of whose modules answer with rules
+   (no data; DWARF whose rows compress; Mach-O entries that do not defer to DWARF), a cache that holds well-formed
+   rules (every cache that only such unwinders filled: the invariant is part of the induction).  As long as the
+   frames reported so far are code addresses (not words that point into the stack), the relocated walk reports the
+   same frames, ends the same way (a read error names the moved address) and leaves the SAME cache. *)
+Theorem C08_stack_relocated_x86_iter : forall lo hi s,
+  2 * DIST <= lo -> lo <= hi -> hi + s + 2 * DIST < W64 ->
+  forall (u : xunwinder) m, mem_ok lo hi s m -> unw_rule_only u -> forall n it it',
+  it_rel lo hi s it it' ->
+  Forall (good lo hi) (removelast (fst (iter_run_x u m it n))) ->
+  Forall2 (ires_rel lo hi s) (fst (iter_run_x u m it n)) (fst (iter_run_x u (shm lo hi s m) it' n)) /\
+  i_cache _ _ (snd (iter_run_x u (shm lo hi s m) it' n)) = i_cache _ _ (snd (iter_run_x u m it n)).
+Proof. exact iter_run_x_stack_shift. Qed.
+Print Assumptions C08_stack_relocated_x86_iter.
+Check walk_premises_hold.
 
 (* the premises are satisfiable by a real-looking two-frame stack moved by 4 GiB *)
 Check shift_premises_hold.
